@@ -212,6 +212,9 @@ func (mr *modelRun) execNode(p *Plan, path, statePath string, n *Node, in M) (M,
 			return nil, ErrNode
 		}
 		out = M{n.Key: NodeValue(n.Key, c)}
+		if n.Interim {
+			out["z:"+n.Key] = 0
+		}
 	case KSub:
 		mr.res.SubInputs[full] = append(mr.res.SubInputs[full], clone(in))
 		sp := statePath
